@@ -1,0 +1,10 @@
+//go:build verif
+
+package transcoding
+
+import "google.golang.org/protobuf/reflect/protoreflect"
+
+// VerifTraverseFieldPath exposes traverseFieldPath to the verification harness (tag verif only).
+func VerifTraverseFieldPath(msg protoreflect.Message, path string) (protoreflect.Message, protoreflect.FieldDescriptor, error) {
+	return traverseFieldPath(msg, path)
+}
